@@ -102,6 +102,9 @@ inline void cfg_from(const J& j, vsim::Config& c) {
   c.sticky_num = int(j.geti("sticky_num", 3)); c.sig_linux_bias = int(j.geti("sig_linux_bias")); c.max_steps = long(j.geti("max_steps", 200000));
 }
 
+// result lines go to a private duplicate of the original stdout: the code under test may redirect or close fd 1
+inline FILE*& outf() { static FILE* f = stdout; return f; }
+
 inline void emit_result(const std::string& cls, const std::string& detail, const Outcome* o) {
   auto& c = ctx();
   std::string s = "{\"seed\":" + std::to_string(c.seed) + ",\"cls\":\"" + jesc(cls) + "\"";
@@ -122,7 +125,7 @@ inline void emit_result(const std::string& cls, const std::string& detail, const
     auto& d = vsim::decisions(); s += ",\"decisions\":["; for (size_t i = 0; i < d.size(); ++i) { if (i) s += ','; s += std::to_string(d[i]); } s += "]";
   }
   s += "}\n";
-  fputs(s.c_str(), stdout); fflush(stdout);
+  fputs(s.c_str(), outf()); fflush(outf());
 }
 inline void fatal_cb(const char* cls, const char* detail) { emit_result(cls, detail, nullptr); _exit(10); }
 extern "C" void __sanitizer_set_death_callback(void (*)(void)) __attribute__((weak));
@@ -131,6 +134,7 @@ inline void sanitizer_death() { if (vsim::active()) emit_result("memory-error", 
 // usage:  harness --seeds FIRST COUNT STRIDE --tier T --variant V      (batch; one JSON line per run)
 //         harness --replay FILE                                        (one run from a replay file)
 inline int harness_main(int argc, char** argv, Harness& h) {
+  { int d = dup(1); if (d >= 0) { FILE* f = fdopen(d, "w"); if (f) outf() = f; } }
   vsim::set_fatal_callback(fatal_cb);
   if (&__sanitizer_set_death_callback) __sanitizer_set_death_callback(sanitizer_death);
   uint64_t first = 1, count = 1, stride = 1; int tier = 0; const char* variant = ""; const char* replay = nullptr; long warm = 0; bool plan_only = false;
@@ -159,7 +163,7 @@ inline int harness_main(int argc, char** argv, Harness& h) {
     c.plan = h.generate(c.seed, tier, c.cfg);
     c.cfg.faults.clear(); for (auto& f : c.plan.faults) if (f.size() >= 3) c.cfg.faults.push_back({int(f[0]), f[1], f[2]});
     if (plan_only) {   // print the plan of this seed without running it (used to make a run that never returned replayable)
-      printf("{\"seed\":%llu,\"cls\":\"plan\",\"variant\":\"%s\",\"plan\":%s,\"cfg\":%s,\"text\":\"%s\"}\n", (unsigned long long)c.seed, variant, plan_json(c.plan).c_str(), cfg_json(c.cfg).c_str(), jesc(h.describe(c.plan)).c_str());
+      fprintf(outf(), "{\"seed\":%llu,\"cls\":\"plan\",\"variant\":\"%s\",\"plan\":%s,\"cfg\":%s,\"text\":\"%s\"}\n", (unsigned long long)c.seed, variant, plan_json(c.plan).c_str(), cfg_json(c.cfg).c_str(), jesc(h.describe(c.plan)).c_str());
       continue;
     }
     Outcome o = h.run(c.plan, c.cfg);
